@@ -180,6 +180,7 @@ func c01Run(c *ev.Ctx) {
 		c01Rewrite(c)
 		return
 	}
+	big := c.Index%40 == 17 // datasets of a MiB and more, several per file (see below)
 	sbv := []uint8{0, 2, 3}[r.Intn(3)]
 	nds := r.Range(1, 3)
 	maxElems := uint64(c.Pick(4096, 65536))
@@ -192,6 +193,54 @@ func c01Run(c *ev.Ctx) {
 		d := c01GenDataset(r, i, maxElems)
 		dss = append(dss, d)
 		s.Ops = append(s.Ops, d.Op)
+	}
+	if big {
+		// one file in forty: two or three datasets of 1-2 MiB each, a numeric one first, then
+		// fixed-length strings much shorter than their element size, then numeric again
+		// (large buffers change hands between consecutive writes of one process)
+		dss, s.Ops = nil, nil
+		mk := func(i int, fam string) {
+			d := c01DS{Family: fam, Layout: "contiguous"}
+			op := hx.Op{K: "create_ds", Path: fmt.Sprintf("/big%d", i), Expect: "ok"}
+			switch fam {
+			case "numeric":
+				k := hx.NumericKinds[r.Intn(10)]
+				es := (&hx.Val{Kind: "[]" + k}).ElemSize()
+				n := r.Range(1<<20, 2<<20) / es
+				if i == 0 {
+					n = r.Range(2<<20, 5<<19) / es // the first one is the largest
+				}
+				op.DT, op.Dims = k, []uint64{uint64(n)}
+				v := hx.GenNumeric(r, "[]"+k, n, 1+r.Intn(3))
+				op.Data = &v
+			default:
+				op.DT = "str"
+				op.StrSize = uint32(r.Range(12, 40))
+				n := r.Range(1<<20, 2<<20) / int(op.StrSize)
+				op.Dims = []uint64{uint64(n)}
+				strs := make([]string, n)
+				for j := range strs {
+					t := fmt.Sprintf("s%d", j%977)
+					strs[j] = t[:min(len(t), 1+j%5)]
+				}
+				v := hx.Val{Kind: "[]str", S: strs}
+				op.Data = &v
+			}
+			if r.Chance(1, 3) {
+				op.Chunk = []uint64{uint64(r.Range(int(op.Dims[0])/7+1, int(op.Dims[0])))}
+				d.Layout = hx.ChunkClass(op.Dims, op.Chunk)
+			}
+			d.Op = op
+			dss = append(dss, d)
+			s.Ops = append(s.Ops, op)
+		}
+		mk(0, "numeric")
+		mk(1, "string")
+		if r.Bool() {
+			mk(2, "numeric")
+		}
+		nds = len(dss)
+		c.Count("files_with_datasets_of_a_MiB_and_more", 1)
 	}
 	path := filepath.Join(c.Dir, "c01.h5")
 	e := hx.Run(path, s)
@@ -233,7 +282,7 @@ func c01Run(c *ev.Ctx) {
 			written[i] = true
 		}
 	}
-	dp := dump.File(path, dump.Options{})
+	dp := dump.File(path, dump.Options{Twice: true})
 	if !dp.OpenRes.OK() {
 		c.Violation(fmt.Sprintf("open-fail:sb%d:n%d", sbv, nds), map[string]any{"open": dp.OpenRes, "script": s.Ops})
 		return
@@ -333,6 +382,9 @@ func c01Run(c *ev.Ctx) {
 			}
 		case typedReadExists && o.ReadRes.Err != "":
 			c.Violation(key("read-error"), witness(d, o.ReadRes.Err))
+		}
+		if o.Reread != "" {
+			c.Violation(key("second-read-differs"), witness(d, o.Reread))
 		}
 		switch {
 		case o.StringsRes.OK():
@@ -559,7 +611,7 @@ func c01Rewrite(c *ev.Ctx) {
 var C01 = &ev.Property{
 	ID:    "C01",
 	Level: "exploration",
-	Rule: "each case writes a file (superblock 0/2/3) with 1-3 datasets through the public API: element type from {10 numeric kinds, fixed strings, arrays, enums, opaque, object references, compound}, rank 1-4, extents from {1,2,3,4,5,7,8,9,11,13,16,17,31,32,64, random}, contiguous or chunked (whole extent, non-dividing chunk, many chunks per dimension, chunk of one element, random; numeric ones optionally filtered) and data from {zeros, extremes incl. NaN payloads / >2^31 / >2^63, ramp, random}; after Close and a fresh Open the monitor checks path, kind, shape, datatype class/size/sign and every typed read (Read, ReadStrings, ReadCompound) against the written values, and that reads without a meaning for the type report errors. Every sixth case writes one numeric dataset twice (in the same session, or in a later session through OpenDataset), enumerating byte size {small, 64 KiB less one element, 64 KiB, above} x layout x style of the first and of the last data; the last data written must be read. " +
+	Rule: "each case writes a file (superblock 0/2/3) with 1-3 datasets through the public API: element type from {10 numeric kinds, fixed strings, arrays, enums, opaque, object references, compound}, rank 1-4, extents from {1,2,3,4,5,7,8,9,11,13,16,17,31,32,64, random}, contiguous or chunked (whole extent, non-dividing chunk, many chunks per dimension, chunk of one element, random; numeric ones optionally filtered) and data from {zeros, extremes incl. NaN payloads / >2^31 / >2^63, ramp, random}; after Close and a fresh Open the monitor checks path, kind, shape, datatype class/size/sign and every typed read (Read, ReadStrings, ReadCompound) against the written values, and that reads without a meaning for the type report errors. Every sixth case writes one numeric dataset twice (in the same session, or in a later session through OpenDataset), enumerating byte size {small, 64 KiB less one element, 64 KiB, above} x layout x style of the first and of the last data; the last data written must be read. One case in forty writes two or three datasets of 1-2 MiB into one file (numeric, then fixed strings much shorter than their element size, then numeric). Every numeric Read is repeated after the caller has overwritten the first result. " +
 		"distinct = (superblock, layout class, type family, rank, size bucket, data style); every written dataset is non-trivial.",
 	Assumptions: []string{
 		"expected numeric values use the reader's documented widening to float64 computed by the same Go conversions",
